@@ -35,7 +35,7 @@ SHARDS = {"quick": 16, "thorough": 16}
 N_EX = {"quick": 70, "thorough": 3000}
 MIN_NONTRIVIAL = {"quick": 300, "thorough": 3000}
 
-NASTY = ["\n", "\r", "\r\n", "\x0b", "\x0c", "\x1c", "\x1d", "\x1e", "\x85", " ", " ", '"', "\\", "//", ";", "#pragma version 2", "#pragma", "foo:", "main_l1:", "int 0", "return", "err", "pop", "b main_l1", "callsub f", "retsub", "\t", " ", "é", "\x00"]
+NASTY = ["\n", "\r", "\r\n", "10%\rdone", "{x}", "{", "%s", "\x0b", "\x0c", "\x1c", "\x1d", "\x1e", "\x85", " ", " ", '"', "\\", "//", ";", "#pragma version 2", "#pragma", "foo:", "main_l1:", "int 0", "return", "err", "pop", "b main_l1", "callsub f", "retsub", "\t", " ", "é", "\x00"]
 
 
 def nasty_text():
@@ -45,7 +45,7 @@ def nasty_text():
 def name_text():
     return st.one_of(
         st.sampled_from(["f", "helper", "my_sub", "a b", "x;y", "q//r", "s\tt", "__swap__(a, b) -> (b, a)", "n: int 0", "é", "f; int 0 ; return", "a\nint 0\nreturn", "a\rb", "a b", "1abc", "", "main", "main_l1"]),
-        st.text(alphabet="abAB01_ ;:/#()-", min_size=1, max_size=12),
+        st.text(alphabet="abAB01_ ;:/#()-{}%$", min_size=1, max_size=12),
         nasty_text().filter(lambda s: len(s) > 0),
     )
 
@@ -180,14 +180,12 @@ def run_case(case, col=None):
                 col.cls("base-not-compiled")
             continue
         if ka != "teal":
-            if ka == "rejected":
-                # an annotation text may legitimately be refused (e.g. invalid name); counted, not judged here
-                if col:
-                    col.cls("annotated-rejected:%s" % type(ta).__name__)
-                continue
-            if col:
-                col.cls("annotated-crash(C20's business)")
-            continue
+            # the base program compiles under this configuration: an annotation (comment text, satisfied pragma, valid
+            # nonce, subroutine name) must not make it uncompilable, whatever text it contains
+            kinds = ",".join(case.get("kinds", []))
+            out.append(("annotation-breaks-compilation:%s" % type(ta).__name__, "cfg=%s: the base program compiles, the annotated one (%s; names=%r) raises %s: %s" % (
+                cfg, kinds, case.get("names"), type(ta).__name__, str(ta)[:200])))
+            break
         try:
             pa = tp.parse(ta)
         except tp.TealSyntaxError as e:
